@@ -1245,6 +1245,7 @@ func resolveBoolField(cond ssa.Value) ssa.Value {
 // inside the range — makes the scanner report alerts below the threshold the user asked for.
 func c08Configured(r *core.Run) {
 	p := r.P
+	r.Explain += " (CONFIG) the threshold the scanner compares with is the configured one: a configured value is replaced by a constant only under a test that found it outside (0,1]."
 	roles := scannerFloatRoles(p)
 	// fields (Type.Field) that hold the configured threshold: the scanner's own field and every options field
 	// whose load is stored into it
